@@ -370,6 +370,38 @@ def toCList : List CxxType → List CxxType
   | a :: t => toC a :: toCList t
 end
 
+def toCOp : Op → Op
+  | .ptr c v => .ptr c v
+  | .ref => .ptr false false
+  | .arr n => .arr n
+  | .func ps cq => .func (toCList ps) cq
+
+mutual
+def CxxType.hasRef : CxxType → Bool
+  | .base _ _ _ => false
+  | .ptr _ _ t => t.hasRef
+  | .ref _ => true
+  | .arr _ t => t.hasRef
+  | .func r ps _ => r.hasRef || hasRefList ps
+def hasRefList : List CxxType → Bool
+  | [] => false
+  | a :: t => a.hasRef || hasRefList t
+end
+
+/-- the meaning of a token list read as a C declaration: the same declarator grammar,
+    without references -/
+def cMeaning (env : Env) (ts : Toks) : Option (Option Str × CxxType) :=
+  match cxxMeaning env ts with
+  | some (n, t) => if t.hasRef then none else some (n, t)
+  | none => none
+
+/-- the declarator with every `&` turned into `*` (what `gen_arg_as_c` prints) -/
+def starPtr (p : Ptr) : Ptr := { p with kind := .star }
+
+def toStarD : Declarator → Declarator
+  | .leaf ps n => .leaf (ps.map starPtr) n
+  | .wrap ps i => .wrap (ps.map starPtr) (toStarD i)
+
 /-! ## well-formedness ([dcl.ref], [dcl.array], [dcl.fct]) -/
 
 mutual
